@@ -9,31 +9,42 @@
 EXTENDS Integers, Sequences, TLC, Json, IOUtils
 CONSTANT Dev
 Trace == ndJsonDeserialize(IOEnv.TRACE_FILE)
-VARIABLES l, tr, dead
-vars == <<l, tr, dead>>
-Init == l = 1 /\ tr = -1 /\ dead = FALSE
+VARIABLES l, tr, dead, cfg
+vars == <<l, tr, dead, cfg>>
+Init == l = 1 /\ tr = -1 /\ dead = FALSE /\ cfg = [tr |-> -1]
+\* string (in)equality against a text literal has an answer of its own, independent of anything compiled earlier in the process:
+\* exact, case- and blank-sensitive comparison; a column the row does not have is NULL for the general engine: equal to no text,
+\* different from every text
+HasStr == "strq" \in DOMAIN cfg
+StrExpect(i) == LET v == cfg.strq.vals[i] IN
+                IF v.m = 1 THEN (IF cfg.strq.op = "==" THEN 0 ELSE 1)
+                ELSE IF cfg.strq.op = "==" THEN (IF v.s = cfg.strq.lit THEN 1 ELSE 0)
+                ELSE (IF v.s # cfg.strq.lit THEN 1 ELSE 0)
 Reject(code) == PrintT(<<"REJECT", tr, l, code>>) /\ dead' = TRUE
 Next ==
   /\ l <= Len(Trace) /\ l' = l + 1
   /\ LET e == Trace[l] IN
-     IF e.e = "reset" THEN tr' = e.tr /\ dead' = FALSE
-     ELSE IF dead THEN UNCHANGED <<tr, dead>>
+     IF e.e = "reset" THEN tr' = e.tr /\ dead' = FALSE /\ cfg' = e
+     ELSE IF dead THEN UNCHANGED <<tr, dead, cfg>>
      ELSE IF e.e = "dec" THEN
         /\ IF e.pf = 1 \/ e.pg = 1 THEN Reject("panic_in_predicate_evaluation")
            ELSE IF e.cf = 1 /\ e.cg = 0 THEN Reject("shortcut_text_does_not_compile")
            ELSE IF e.cf = 0 /\ e.cg = 0 /\ e.fast # e.gen THEN Reject("shortcut_decision_differs_from_general_engine")
+           ELSE IF HasStr /\ e.cg = 0 /\ e.gen # StrExpect(e.i) THEN Reject("decision_is_not_the_one_of_this_predicate_text")
+           ELSE IF HasStr /\ e.cf = 0 /\ e.fast # StrExpect(e.i) THEN Reject("decision_is_not_the_one_of_this_predicate_text")
+           ELSE IF HasStr /\ "q" \in DOMAIN e /\ e.q >= 0 /\ e.q # StrExpect(e.i) THEN Reject("decision_is_not_the_one_of_this_predicate_text")
            ELSE IF "q" \in DOMAIN e /\ e.q >= 0 /\ e.cg = 0 /\ e.q # e.gen THEN Reject("query_decision_differs_from_general_engine")
            \* other spellings of the same predicate (literal OP column with the mirrored operator): 2 = panic, -1 = did not compile
            ELSE IF "alt" \in DOMAIN e /\ e.cg = 0 /\ \E k \in 1..Len(e.alt) : e.alt[k] = 2 THEN Reject("panic_in_predicate_evaluation")
            ELSE IF "alt" \in DOMAIN e /\ e.cg = 0 /\ \E k \in 1..Len(e.alt) : e.alt[k] \in {0, 1} /\ e.alt[k] # e.gen THEN Reject("equivalent_spelling_decides_differently_from_general_engine")
            ELSE UNCHANGED dead
-        /\ UNCHANGED tr
+        /\ UNCHANGED <<tr, cfg>>
      ELSE IF e.e = "conc" THEN
         /\ IF e.panics > 0 THEN Reject("panic_in_concurrent_predicate_evaluation")
            ELSE IF e.bad > 0 THEN Reject("decision_changes_under_concurrent_evaluation")
            ELSE UNCHANGED dead
-        /\ UNCHANGED tr
-     ELSE UNCHANGED <<tr, dead>>
+        /\ UNCHANGED <<tr, cfg>>
+     ELSE UNCHANGED <<tr, dead, cfg>>
 Spec == Init /\ [][Next]_vars
 AllConsumed == TLCGet("stats").diameter - 1 = Len(Trace)
 =============================================================================
